@@ -1,7 +1,7 @@
 (* C18 — mkarray ranges produce the exact sequence.
    Only theorem statements here; proofs live in Proof/MkArray.v. *)
 From Murex Require Import Base.Outcome Base.Bytes Model.Decimal Model.MkArray Model.MkArrayParse Check.C18
-  Proof.MkArray Proof.MkArrayParse.
+  Proof.MkArray Proof.MkArrayParse Proof.Decimal Proof.DecimalCor.
 Open Scope Z_scope.
 
 (* `[m..n]` for ALL integers m, n (texts s0, s1 that strconv.Atoi accepts):
@@ -12,6 +12,13 @@ Theorem C18_int_range_exact : forall s0 s1 m n,
   int_range s0 s1 = Ok (map (fmtnum (if m <? n then s0 else s1)) (zrange m n)).
 Proof. exact int_range_exact. Qed.
 Print Assumptions C18_int_range_exact.
+
+(* Over integers: `[m..n]` written in plain decimal is every integer from m to n
+   in plain decimal, for all int64 m, n. *)
+Theorem C18_int_range_int : forall m n, int64 m -> int64 n ->
+  int_range (itoa m) (itoa n) = Ok (map itoa (zrange m n)).
+Proof. exact I18.int_range_int. Qed.
+Print Assumptions C18_int_range_int.
 
 (* zrange m n has |m - n| + 1 elements and its k-th element is m + k (m <= n) or m - k. *)
 Theorem C18_zrange_length : forall m n, length (zrange m n) = Z.to_nat (Z.abs (m - n) + 1).
